@@ -178,6 +178,8 @@ def run(ctx):
     # the order of every list is the documented one only if nothing else in the push module reorders it (e.g. update_with_server_default)
     from . import C12 as _C12
     _C12.list_order_rule(ctx, w, "C13.list-order")
+    # rule ids are unique per kind only if the sets' notion of "same rule" (Hash / PartialEq) is the rule id
+    _C12.keys_rule(ctx, w, "C13.keys")
     ctx.assumptions += ["indexmap::IndexSet::{replace_full, move_index, get_index_of} behave as documented",
                         "Hash/Eq/Equivalent of the rule types key on rule_id only (uniqueness per kind) - checked in C12.keys"]
     ctx.samples += [{"op": "insert first override rule into an empty ruleset", "expected": "index clamped to len-1 = 0, no panic"},
